@@ -154,6 +154,11 @@ Definition xterm_seq (k : kname) (mods : N) (alt_form : bool) : option (list N) 
         match (if alt_form then None else final_byte k), tilde_code k alt_form with
         | Some f, _ =>
             if mods =? 0 then Some ([27; if (80 <=? f) && (f <=? 83) then 79 else 91] ++ [f])
+            (* CSI 1 ; n R is also the cursor position report of row 1, column n.  The property resolves
+               n = 2..8 (the classic shift / alt / ctrl masks) for the key; for larger n the sequence is
+               taken as the report (RCursor), so F3 with a mask >= 8 has no PC-style encoding here
+               (it has the VT220-style one, CSI 13 ; m ~) *)
+            else if (f =? 82) && (8 <=? mods) then None
             else Some ([27; 91; 49; 59] ++ digits (mods + 1) ++ [f])
         | None, Some n =>
             if mods =? 0 then Some ([27; 91] ++ digits n ++ [126])
